@@ -134,7 +134,7 @@ def _truth(x) -> SymBool:
     if isinstance(x, SymBool):
         return x
     if isinstance(x, Sym):
-        return x != 0
+        return x.truth()
     return SymBool(None, bool(x))
 
 
@@ -239,8 +239,35 @@ class NumpyProxy(types.ModuleType):
         if order is not None or kw or arr.ndim != 1 or not self.__dict__["adversarial_sort"]:
             return numpy.argsort(a, axis=axis, kind=kind, order=order, **kw)
         stable = kind in ("stable", "mergesort")
+        if not ENGINE.active:
+            if stable or not CONCRETE_ENV["reverse_ties"] or arr.dtype == object:
+                return numpy.argsort(a, axis=axis, kind=kind)
+            # replay environment: a conforming unstable sort that reverses every run of equal keys
+            _used("S4:argsort(reverse-ties replay environment)")
+            idx = numpy.argsort(arr, kind="stable")
+            out = []
+            i = 0
+            while i < len(idx):
+                j = i
+                while j + 1 < len(idx) and arr[idx[j + 1]] == arr[idx[i]]:
+                    j += 1
+                out.extend(reversed(idx[i : j + 1].tolist()))
+                i = j + 1
+            return numpy.array(out, dtype=numpy.intp)
         _used("S4:argsort(%s)" % ("stable" if stable else "unstable"))
-        return adversarial_argsort(arr, stable)
+        key = None
+        if arr.dtype != object:
+            key = ("argsort", stable, arr.tobytes(), str(arr.dtype))
+            hit = ENGINE.path_cache.get(key)
+            if hit is not None:
+                return hit.copy()
+        r = adversarial_argsort(arr, stable)
+        if key is not None:
+            ENGINE.path_cache[key] = r
+        return r.copy()
+
+
+CONCRETE_ENV = {"reverse_ties": False}
 
 
 def adversarial_argsort(arr, stable: bool):
@@ -260,7 +287,7 @@ def adversarial_argsort(arr, stable: bool):
                 continue
             if not stable and bool(ai == aj):
                 # tie: a conforming unstable sort may put either first
-                if ENGINE.active and ENGINE.decide(z3.Bool("tie!%d" % ENGINE_next_tie()), tainted=False):
+                if ENGINE.decide(z3.Bool("tie!%d" % ENGINE_next_tie()), tainted=False):
                     pos -= 1
                     continue
             break
